@@ -144,14 +144,14 @@ UNITS["C08"] = [
     _k("c08_plm_map_exact_at_nodes_3", "fontdrasil", _PLM, [_PLMF + "map"], "bounded", "exactly 3 nodes, strictly increasing finite `from`, arbitrary finite `to`",
        "well-formed 3-node map", "map(from[k]) == to[k] for every node k"),
     _k("c08_plm_map_exact_at_nodes_2", "fontdrasil", _PLM, [_PLMF + "map"], "bounded", "exactly 2 nodes", "well-formed 2-node map", "map(from[k]) == to[k]"),
-    _k("c08_plm_map_one_node_and_empty", "fontdrasil", _PLM, [_PLMF + "map"], "complete", "the 1-node and the empty map, all finite values; loop-free apart from the binary search over <= 1 element",
-       "1-node map / empty map", "exact at the node; translation elsewhere; empty map is the identity"),
-    _k("c08_plm_map_translates_outside_3", "fontdrasil", _PLM, [_PLMF + "map"], "bounded", "exactly 3 nodes; any finite x outside [from[0], from[2]]",
-       "well-formed 3-node map, x outside the nodes", "map(x) == x + to[end] - from[end] (fontTools piecewiseLinearMap semantics)"),
+    _k("c08_plm_map_one_node_and_empty", "fontdrasil", _PLM, [_PLMF + "map"], "complete", "the 1-node map (all finite values) and the empty map (all non-NaN values); loop-free apart from the binary search over <= 1 element",
+       "1-node map / empty map", "exact at the node; empty map is the identity bit-for-bit"),
     _k("c08_plm_map_duplicates_first_wins_3", "fontdrasil", _PLM, [_PLMF + "map"], "bounded", "exactly 3 nodes, non-decreasing `from` (duplicates allowed)",
        "sorted 3-node map", "map at a duplicated `from` returns the FIRST node's `to` (ufo2ft #978)"),
     _k("c08_plm_reverse_inverts_at_nodes_3", "fontdrasil", _PLM, [_PLMF + "reverse", _PLMF + "map"], "bounded", "exactly 3 nodes, strictly increasing from and to",
        "strictly monotone 3-node map", "reverse() is well-formed and reverse().map(to[k]) == from[k]"),
+    _k("c08_avar_default_segment_map_is_required_triple", "fontbe", "fontbe/src/avar.rs", ["fontbe::avar::default_segment_map"], "complete", "no inputs",
+       "-", "exactly the three maps -1:-1, 0:0, 1:1 in increasing order"),
     _k("c08_plm_cover", "fontdrasil", _PLM, [], "complete", "", "", "node branch and extrapolation branch reachable with a non-trivial map", kind="cover"),
 ]
 
@@ -191,8 +191,10 @@ UNITS["C13"] = [
     dict(obligation="verus_lexer_lemma_tiling", engine="verus", verus_fn="lemma_tiling", crate="fea-rs", src="fea-rs/src/parse/lexer.rs", functions=[],
          klass="complete", domain="all n, all length sequences", pre="every lexeme length >= 1; start + sum(lens) == n", post="at most n - start lexemes (a driver loop over next_token's contract terminates having consumed exactly the input)",
          kind="obligation", tiers=["quick", "thorough"], timeout_s=600),
-    _k("c13_lexer_contract_inputs_up_to_3_bytes", "fea-rs", "fea-rs/src/parse/lexer.rs", ["fea_rs::parse::lexer::Lexer::next_token (real, unextracted)"], "bounded",
-       "every valid UTF-8 input of <= 3 bytes, first three tokens", "valid UTF-8, |input| <= 3", "T1, T2, T3 on each of the first three next_token calls", timeout_s=900, companion=True),
+    _k("c13_lexer_contract_inputs_up_to_2_bytes", "fea-rs", "fea-rs/src/parse/lexer.rs", ["fea_rs::parse::lexer::Lexer::next_token (real, unextracted)"], "bounded",
+       "every valid UTF-8 input of <= 2 bytes, first three tokens", "valid UTF-8, |input| <= 2", "T1, T2, T3 on each of the first three next_token calls; third lexeme is Eof", timeout_s=900, companion=True, on_demand=True),
+    _k("c13_lexer_contract_inputs_of_3_bytes", "fea-rs", "fea-rs/src/parse/lexer.rs", ["fea_rs::parse::lexer::Lexer::next_token (real, unextracted)"], "bounded",
+       "every valid UTF-8 input of exactly 3 bytes, first two tokens", "valid UTF-8, |input| == 3", "T1, T2, T3 on the first two next_token calls", tiers=("thorough",), timeout_s=3600),
     _k("c13_from_keyword_never_eof", "fea-rs", "fea-rs/src/parse/lexer/lexeme.rs", ["fea_rs::parse::lexer::lexeme::Kind::from_keyword"], "bounded",
        "every byte word of length <= 26 (longest keyword has 25 bytes)", "|word| <= 26", "result is never Some(Eof/Tombstone/Ident/Whitespace); empty word => None  (the contract the Verus proof assumes for this external_body function)", timeout_s=900),
     _k("c13_lexer_cover", "fea-rs", "fea-rs/src/parse/lexer.rs", [], "complete", "", "", "identifier, non-ASCII byte, number reachable", kind="cover", timeout_s=900),
